@@ -185,7 +185,7 @@ Proof.
   intros x Hx.
   assert (E1 : x - x mod 16 = N.shiftl (N.shiftr x 4) 4).
   { rewrite N.shiftl_mul_pow2, N.shiftr_div_pow2. change (2 ^ 4) with 16.
-    pose proof (N.div_mod x 16). lia. }
+    pose proof (N.div_mod x 16 ltac:(lia)) as D. rewrite D at 1. rewrite N.mul_comm. lia. }
   rewrite E1. apply N.bits_inj. intro n.
   rewrite N.land_spec.
   destruct (N.ltb_spec n 4) as [Hn|Hn].
